@@ -88,6 +88,31 @@ impl UskParts {
     }
 }
 
+/// The byte string the issuer's KMAC is computed over (markers, then for each right its name
+/// followed by the scalar and ML-KEM key of each secret), plus the signature itself.
+pub fn mac_view(b: &[u8]) -> Option<(Vec<u8>, Option<Vec<u8>>)> {
+    let w = wire::parse_usk(b).ok()?;
+    let mut out = vec![];
+    for m in &w.id {
+        out.extend_from_slice(m);
+    }
+    for r in &w.rights {
+        out.extend_from_slice(&r.right);
+        for s in &r.secrets {
+            out.extend_from_slice(&b[s.span.0 + 1..s.span.1]);
+        }
+    }
+    Some((out, w.signature.clone()))
+}
+
+/// Serialized key without its tracing points (which C08 does not speak about).
+pub fn without_ps(b: &[u8]) -> Option<Vec<u8>> {
+    let w = wire::parse_usk(b).ok()?;
+    let mut out = b[..w.ps_count_span.0].to_vec();
+    out.extend_from_slice(&b[w.rights_count_span.0..]);
+    Some(out)
+}
+
 fn other_usk_bytes(w: &World, user: usize) -> Option<Vec<u8>> {
     w.users
         .get(user)
@@ -622,5 +647,54 @@ pub fn usk_same_object(a: &[u8], b: &[u8]) -> bool {
     match (UserSecretKey::deserialize(a), UserSecretKey::deserialize(b)) {
         (Ok(x), Ok(y)) => x == y,
         _ => false,
+    }
+}
+
+/// A consistently re-built object with one of its lists emptied (count rewritten to match).
+pub fn emptied(kind: &str, b: &[u8], which: u8) -> Option<Vec<u8>> {
+    match kind {
+        "xenc" | "header" => {
+            let mut p = EncParts::from(b)?;
+            match which % 3 {
+                0 => p.traps.clear(),
+                1 => p.encs.clear(),
+                _ => {
+                    p.traps.clear();
+                    p.encs.clear();
+                }
+            }
+            Some(p.build())
+        }
+        "usk" => {
+            let mut p = UskParts::from(b)?;
+            match which % 4 {
+                0 => p.id.clear(),
+                1 => p.ps.clear(),
+                2 => p.rights.clear(),
+                _ => {
+                    p.id.clear();
+                    p.ps.clear();
+                    p.rights.clear();
+                }
+            }
+            Some(p.build())
+        }
+        "mpk" => {
+            let w = wire::parse_mpk(b).ok()?;
+            let (_, span) = w.spans.iter().find(|(n, _)| *n == "tpk-count")?;
+            let mut out = b[..span.0].to_vec();
+            out.extend(leb_encode(0));
+            out.extend_from_slice(&b[span.1 + w.tpk.len() * wire::PT..]);
+            Some(out)
+        }
+        "msk" => {
+            let w = wire::parse_msk(b).ok()?;
+            let (_, span) = w.spans.iter().find(|(n, _)| *n == "tracer-count")?;
+            let mut out = b[..span.0].to_vec();
+            out.extend(leb_encode(0));
+            out.extend_from_slice(&b[span.1 + w.tracers.len() * (wire::SC + wire::PT)..]);
+            Some(out)
+        }
+        _ => None,
     }
 }
